@@ -428,10 +428,22 @@ package proxy
 //@   pure
 //@ define nm(v string, b int) string = canon(trim(tok(v, b)))
 //@ define listed(v string, b int) bool = trim(tok(v, b)) != ""
+//@ define lineDone(v string) bool = forall(b, 0, ntok(v), listed(v, b) ==> !has(res.Header, nm(v, b)))
 //@ func (*ReverseProxy).ServeHTTP
 //@   may_panic
 //@   requires rp != nil && rp.dialer != nil && rw != nil && outreq != nil && outreq.URL != nil && outreq.Header != nil
 //@   at call (net/http.Header).Del#2 before [headers_named_on_every_connection_line_are_gone] forall(a, 0, len(res.Header["Connection"]), forall(b, 0, ntok(res.Header["Connection"][a]), listed(res.Header["Connection"][a], b) ==> !has(res.Header, nm(res.Header["Connection"][a], b))))
+//@   // proof: #r1 is the list of Connection lines the outer loop ranges over (taken once); while the response still has a
+//@   // Connection entry it is that list (a line may name "Connection" itself, which removes the entry)
+//@   loop 1 invariant res != nil && res.Header != nil && 0 <= #i && #i <= len(#r)
+//@   loop 1 invariant has(res.Header, "Connection") ==> res.Header["Connection"] == #r
+//@   loop 1 invariant forall(a, 0, #i, lineDone(#r[a]))
+//@   loop 2 invariant res != nil && res.Header != nil && 1 <= #i1 && #i1 <= len(#r1) && c == #r1[#i1 - 1]
+//@   loop 2 invariant has(res.Header, "Connection") ==> res.Header["Connection"] == #r1
+//@   loop 2 invariant 0 <= #i && #i <= len(#r) && len(#r) == ntok(c) && forall(i, 0, len(#r), #r[i] == tok(c, i))
+//@   loop 2 invariant forall(b, 0, #i, listed(c, b) ==> !has(res.Header, nm(c, b)))
+//@   loop 2 invariant forall(a, 0, #i1 - 1, lineDone(#r1[a]))
+//@   loop 3 invariant res != nil && res.Header != nil && forall(a, 0, len(res.Header["Connection"]), lineDone(res.Header["Connection"][a]))
 
 //@ unit setup_sweep props=C11 files=setup.go,upstream.go nilchecks=on nonnil_params=on dispenser_variants=on exclude=`staticUpstream\)\.(HealthCheckWorker|NewHost|Select|healthCheck|healthCheck\$1|resolveHost)$|headerReplacements\)\.Add$|proxy\.(NewStaticUpstreams|RegisterPolicy|parseUpstream|replacePort)$` filter=`.`
 //@ // Safety sweep of this directive's setup code: index, slice, division, nil-map store, nil dereference, explicit panic,
